@@ -57,7 +57,7 @@ theorem reground_laws_iff (kind : Kind) (s : K) (g : Nat) (cs : List (Cpt K)) (x
   refine ⟨reground_laws kind s g cs x hgf, fun h => ?_⟩
   have := reground_laws kind s g (reground g cs) (regroundSol g x) (groundFree_reground g cs hgf) h
   rw [reground_reground] at this
-  exact laws_congr kind s cs _ x (regroundSol_regroundSol g x) this
+  exact laws_congr_ground kind s cs _ x (regroundSol_regroundSol g x) this
 
 /-- voltage differences between (renamed) nodes and all branch currents are the same in the two solutions -/
 theorem reground_observables (g : Nat) (x : Ix → K) :
